@@ -118,6 +118,8 @@ type Sched struct {
 	tabMu   sync.Mutex // protects tasks slice growth against lookups from natively woken goroutines
 	tasks   []*Task
 	tickers []*tickerRec
+	timers    []*Timer    // see timers.go
+	deadlines []time.Time // see timers.go
 	schedG  int64
 
 	Current  *Task // task that was released last
@@ -433,8 +435,9 @@ func (s *Sched) Quiesce() {
 		case tsRunning:
 			t.Native = true
 		case tsArmed:
-			if now.After(t.Deadline) {
-				// the deadline has passed and the callback did not start: it was stopped
+			if !now.Before(t.Deadline) {
+				// the deadline has been reached (the system is quiescent: a timer that is due has
+				// started its callback) and the callback did not start: it was stopped
 				t.state = tsDead
 			}
 		}
@@ -520,6 +523,9 @@ func (s *Sched) NextEvent() (at time.Time, ok bool) {
 		if !ok || next.Before(at) {
 			at, ok = next, true
 		}
+	}
+	if x, have := s.extraEvents(now); have && (!ok || x.Before(at)) {
+		at, ok = x, true
 	}
 	return
 }
